@@ -110,6 +110,12 @@ def splits(template, dynamic=False):
                 r1, r2 = print_nodes(R[:k], dynamic), print_nodes(R[k:], dynamic)
                 base3 = replace_at(template, path, i, j, ("Raw", "{% block r %}" + r1 + "{% endblock %}"))
                 yield "V3", (("Raw", '{% extends "c10base" %}{% block r %}{{ block.super }}' + r2 + "{% endblock %}"),), {"c10base": print_nodes(base3, dynamic)}
+                # V6: block.super LAST - the child's block renders the first part itself and then {{ block.super }} (the base block
+                # holds the last node): a component (with fills) rendered earlier in the same block must not disturb it
+                if len(R) >= 2:
+                    r1b, r2b = print_nodes(R[:-1], dynamic), print_nodes(R[-1:], dynamic)
+                    base6 = replace_at(template, path, i, j, ("Raw", "{% block r %}" + r2b + "{% endblock %}"))
+                    yield "V6", (("Raw", '{% extends "c10base" %}{% block r %}' + r1b + "{{ block.super }}{% endblock %}"),), {"c10base": print_nodes(base6, dynamic)}
                 # V4: include
                 main4 = replace_at(template, path, i, j, ("Raw", '{% include "c10inc" %}'))
                 yield "V4", main4, {"c10inc": r_src}
